@@ -32,8 +32,8 @@ impl ViewApi for RealView {
     }
     fn lines_collect(&self, take: Option<u32>) -> Vec<String> {
         match take {
-            None => self.0.lines().map(str::to_owned).collect(),
-            Some(k) => self.0.lines().take(k as usize).map(str::to_owned).collect(),
+            None => self.0.lines().map(simcore::refview::own).collect(),
+            Some(k) => self.0.lines().take(k as usize).map(simcore::refview::own).collect(),
         }
     }
     fn get_line_slice(&self, line: u32, col: u32, span: u32) -> Option<&str> {
@@ -368,6 +368,7 @@ struct Acc {
 }
 
 fn one_run(acc: &mut Acc, base_seed: u64, i: u64, det_n: u64) {
+    simcore::isolate::trace_run(i);
     let run_seed = rng::mix(base_seed, rng::domain(PROP), i);
     let mut rng = Rng::new(run_seed);
     let h = gen(&mut rng);
@@ -505,7 +506,7 @@ fn do_replay(path: &str) -> i32 {
     match ex.verdict {
         Some((sig, detail)) => {
             println!("replayed: signature={sig}\ndetail: {detail}");
-            if sig == want_sig && eh == want_hash {
+            if sig == want_sig && (eh == want_hash || want_hash.is_empty()) {
                 println!("VIOLATION property={PROP} replay={path}");
                 1
             } else {
@@ -521,11 +522,26 @@ fn do_replay(path: &str) -> i32 {
 }
 
 pub fn main(args: &Args) -> i32 {
+    let base_seed = args.num("--seed").unwrap_or_else(simcore::seed_from_env);
+    let emit = |idx: u64, sig: &str| -> String {
+        let run_seed = rng::mix(base_seed, rng::domain(PROP), idx);
+        let h = gen(&mut Rng::new(run_seed));
+        let path = format!("{}/replays/{PROP}-{}-{}.json", simcore::verif_dir(), base_seed, idx);
+        simcore::write_json_atomic(
+            &path,
+            &json!({"property": PROP, "engine": "sim_io/c15 (single-client SourceView histories)", "base_seed": base_seed, "run_index": idx,
+                    "run_seed": run_seed, "history": h.to_json(), "signature": sig, "event_hash": "",
+                    "detail": "the process died inside a library call while executing this history (not minimised)"}),
+        );
+        path
+    };
+    if let simcore::isolate::Supervised::Done(rc) = simcore::isolate::supervise(PROP, args, emit) {
+        return rc;
+    }
     if let Some(path) = args.value("--replay") {
         return do_replay(path);
     }
     let tier = simcore::tier_from(args);
-    let base_seed = args.num("--seed").unwrap_or_else(simcore::seed_from_env);
     let workers = args.num("--workers").map(|w| w as usize).unwrap_or_else(simcore::par::workers_from_env);
     let runs = args.num("--runs").unwrap_or(match tier {
         Tier::Quick => 400_000,
